@@ -54,7 +54,21 @@ class Ctx:
         unchanged specification is a machinery failure (the spec is wrong or was changed), not a
         property violation of the code."""
         kw.setdefault('coverage', self.tier == 'thorough')
-        res = tlc.run_tlc(module, cfg, **kw)
+        tmpcfg = None
+        if expect_violation:
+            # a defect configuration may break several invariants and TLC's workers race: check only the
+            # one that is expected, so that the outcome does not depend on which is found first
+            with open(os.path.join(tlc.SPECS, cfg)) as f:
+                text = '\n'.join(l for l in f.read().splitlines()
+                                 if not l.startswith('INVARIANT') or l.split()[1:] == [expect_violation]) + '\n'
+            tmpcfg = '.expect_%d_%s' % (os.getpid(), cfg)
+            with open(os.path.join(tlc.SPECS, tmpcfg), 'w') as f:
+                f.write(text)
+        try:
+            res = tlc.run_tlc(module, tmpcfg or cfg, **kw)
+        finally:
+            if tmpcfg:
+                os.unlink(os.path.join(tlc.SPECS, tmpcfg))
         self.states += res['distinct']
         self.transitions += res['generated']
         rec = {'module': module, 'cfg': cfg, 'distinct': res['distinct'],
